@@ -407,6 +407,28 @@ pub fn families_opt(tier: Tier, _variant: &str, mode: Mode, with_viable: bool) -
             check_doc(ctx, doc, &d)
         }));
     }
+    {
+        // corpus documents whole, cut at evenly spaced points and with one byte replaced there
+        let mut inputs: Vec<Vec<u8>> = vec![];
+        for (_, d) in gen::corpus() {
+            inputs.push(d.clone());
+            if d.len() > 700_000 {
+                continue;
+            }
+            let n = if q { 8 } else { 64 };
+            for c in 1..n {
+                let cut = d.len() * c / n;
+                inputs.push(d[..cut].to_vec());
+                for b in [b'"', b'\\', b'}', b',', 0xffu8, b'0', b' '] {
+                    let mut m = d.clone();
+                    m[cut] = b;
+                    inputs.push(m);
+                }
+            }
+        }
+        let d = dc(&f2[..1]);
+        v.push(Family::of_vec("corpus-files/cuts+substitutions", inputs, move |doc, ctx| check_doc(ctx, doc, &d)));
+    }
     v.push(digit_run_tail_family("digit-run+n10-tail", if q { 70 } else { 140 }, if q { 4 } else { 5 }, b"", b"", dc(f2)));
     v.push(digit_run_tail_family("digit-run+n10-tail/element", if q { 70 } else { 140 }, if q { 2 } else { 3 }, b"[", b",2]", dc(f2)));
     {
